@@ -156,16 +156,25 @@ impl SubSocket {
     ) -> ZmqResult<()> {
         let message: ZmqMessage = SubSocketBackend::create_subs_message(subscription, msg_type);
         let mut iter = self.backend.peers.begin_async().await;
+        // A failure on one peer's connection must not keep the other peers from being told.
+        let mut first_error = None;
 
         while let Some(mut peer) = iter {
             #[cfg(feature = "verif-hooks")]
             crate::__verif::yield_point("sub.process_subs.peer").await;
-            peer.send_queue
+            if let Err(e) = peer
+                .send_queue
                 .send(Message::Message(message.clone()))
-                .await?;
+                .await
+            {
+                first_error.get_or_insert(e);
+            }
             iter = peer.next_async().await;
         }
-        Ok(())
+        match first_error {
+            Some(e) => Err(e.into()),
+            None => Ok(()),
+        }
     }
 }
 
